@@ -449,7 +449,7 @@ pub fn gen_base(rng: &mut Rng, small_only: bool) -> u64 {
     match rng.below(if small_only { 8 } else { 11 }) {
         0..=2 => 0,
         3 => 1 + rng.below(100),
-        4 => *rng.pick(&[1u64, 50, 99, 100, 101, 199, 200, 900, 999, 1_000, 1_001][..]),
+        4 => *rng.pick(&[1u64, 99, 100, 100, 100, 101, 200, 999, 1_000, 1_001][..]),
         5 | 6 => near_const(rng, false),
         7 => rng.below(120_000_000),
         8 => RHO + rng.below(5_000_000),
